@@ -11,6 +11,11 @@ CHECKS = {
          "Every history of SafeAccount setters / Snapshot / RevertToSnapshot(i) / reads / end-of-block up to the stated depth over 13 scenario alphabets is executed on the real journal; after every revert the full getter observation and journal length are compared with a twin instance stopped at the snapshot, after end-of-block the published logs are redone on a fresh manager and compared with execution; panics are violations. States are de-duplicated on a raw dump that includes caches and version counters.",
          "Alphabet restricted to sequences the system can produce (code written once, no double self-destruct, asset sub-records only on existing assets, candidate keys only rewritten when present); depth bound 4 (broad) / 7 (narrow) quick, 6 / 9 thorough; in-memory event list not compared (undoAddEvent is a deliberate no-op).",
          "DESIGN.md section 4 C07"),
+ "C03": ("model_checking",
+         "explicit-state BFS over message-delivery histories on a real node (chain.BlockChain + DPoVP over a real ChainDatabase); engine goroutines gated through a generated source overlay",
+         "Every delivery order (up to the depth bound) of the blocks of a pre-mined tree and of confirm packets drawn from a token set (valid, duplicate, re-encoded, second-nonce, outsider, wrong-hash, two-signature packets, confirms carried in block bodies), plus the engine's own background tasks released as events, is executed on a fresh real node in 6 scenarios (1/3/4 deputies; chain, siblings, fork; observer and deputy). After every event: stable height monotone, new stable descends from the old one, stable blocks by height never change; at the end of every history: the stable block is signed by >= ceil(2n/3) distinct deputy node ids (recovered from header signature and stored confirms), head descends from stable.",
+         "Block tree shapes and token alphabet are fixed (see evidence rule); depth 4 quick / 5 thorough; gated tasks released oldest-first; MineBlock by the node itself is not an event yet.",
+         "DESIGN.md section 4 C03"),
 }
 
 NOT_YET = "check not built yet in this round (design in DESIGN.md section 4); no technique switch intended"
